@@ -12,7 +12,7 @@ STATE = {0x10: "CONNECTING", 0x11: "CONNECTED", 0x12: "READY", 0x13: "WAITDWA",
          0x1a: "DISCONNECTING", 0x1b: "CLOSING", 0x1c: "CLOSED"}
 
 DEFAULT_NODE = {"host": "node.r1", "realm": "r1", "idle": 30, "dwa": 4, "cer": 4, "cea": 4,
-                "wakeup": 6, "retx": 10240, "validate": True, "listen": True, "samehbh": False}
+                "wakeup": 6, "retx": 10240, "validate": True, "listen": True, "samehbh": False, "nlisten": 1}
 
 
 def peer_cfg(name, realm="r1", addrs=True, persistent=False, default=False, always=False, rwait=30,
@@ -70,7 +70,7 @@ class World:
         if small_ids:
             self.s.rng = SmallIds(same=bool(nc.get("samehbh")))
         self.t0 = int(self.s.now)
-        self.node = N.node.Node(nc["host"], nc["realm"], ip_addresses=["10.0.0.1"] if nc["listen"] else None,
+        self.node = N.node.Node(nc["host"], nc["realm"], ip_addresses=["10.0.0.%d" % (i + 1) for i in range(nc.get("nlisten", 1))] if nc["listen"] else None,
                                 tcp_port=3868 if nc["listen"] else None)
         n = self.node
         n.idle_timeout, n.dwa_timeout, n.cer_timeout, n.cea_timeout = nc["idle"], nc["dwa"], nc["cer"], nc["cea"]
